@@ -23,7 +23,7 @@ theorem recovery_phases_in_order :
     allBefore .replayAndSetupWal .spawnCompactor xs = true ∧
     [Label.repairCompactions, .reconstructSSTables, .replayAndSetupWal].all (fun l => unconditional l xs) = true ∧
     deferredBlocks xs =
-      [[.act .unlock], [.ifBegin "err != nil", .act .currentSSTable, .act .readerClose, .act .clearReaders, .ifEnd]] ∧
+      [[.act .unlock], [.ifBegin "errNonNil", .act .currentSSTable, .act .readerClose, .act .clearReaders, .ifEnd]] ∧
     allBefore .clearReaders .repairCompactions xs = true ∧
     occurs .readerClose (immediate 0 xs) = false ∧ occurs .clearReaders (immediate 0 xs) = false ∧
     noOther xs = true := by decide +kernel
@@ -32,7 +32,8 @@ theorem recovery_phases_in_order :
 `SstablePaths`, from the first) before the rename — the rename takes the success flag away with it -/
 theorem reflect_deletes_before_rename :
     let xs := itemsOf "SSTableManager.reflectCompactionResult"
-    allBefore .removeAllInput .renameIntoPlace xs = true ∧ inFullLoop .removeAllInput "m.SstablePaths" xs = true ∧
+    allBefore .removeAllInput .renameIntoPlace xs = true ∧
+    inFullLoop .removeAllInput "simpledb/proto.CompactionMetadata.SstablePaths" xs = true ∧
     allBefore .readerClose .removeAllInput xs = true ∧ firstBefore .renameIntoPlace .openReader xs = true ∧
     count .renameIntoPlace xs = 1 ∧ unconditional .renameIntoPlace xs = true ∧ noOther xs = true := by decide +kernel
 
@@ -41,8 +42,11 @@ replacement), then whatever sits at the replacement path, and renames LAST -/
 theorem repair_deletes_before_rename :
     let xs := itemsOf "DB.repairCompactions"
     inOrder [.removeAllInput, .removeAllReplacement, .renameIntoPlace] xs = true ∧
-    inFullLoop .removeAllInput "meta.SstablePaths" xs = true ∧
-    condsAround .removeAllInput [] xs = [["sstablePath != meta.ReplacementPath"]] ∧
+    inFullLoop .removeAllInput "simpledb/proto.CompactionMetadata.SstablePaths" xs = true ∧
+    -- the one condition: the element of `SstablePaths` at hand is not the replacement path (the same list whether the
+    -- source says `if p != repl { remove }` or `if p == repl { continue }; remove`)
+    condsAround .removeAllInput [] xs =
+      [["elem(simpledb/proto.CompactionMetadata.SstablePaths) != simpledb/proto.CompactionMetadata.ReplacementPath"]] ∧
     count .renameIntoPlace xs = 1 ∧ noOtherBetween .removeAllInput .renameIntoPlace xs = true ∧ noOther xs = true := by
   decide +kernel
 
@@ -51,25 +55,39 @@ order `cleanStep` has -/
 theorem unflagged_compactions_deleted_first :
     let xs := itemsOf "DB.repairCompactions"
     allBefore .removeAllUnflaggedCompaction .removeAllInput xs = true ∧
-    inFullLoop .removeAllUnflaggedCompaction "compactionsToDelete" xs = true ∧
+    -- the directories to delete: a local string list collected by the walk (`‹[]string›`); the flagged ones are a list
+    -- of metadata records
+    inFullLoop .removeAllUnflaggedCompaction "‹[]string›" xs = true ∧
+    inFullLoop .removeAllReplacement "‹[]*simpledb/proto.CompactionMetadata›" xs = true ∧
     -- the flag is read (and its reader closed) inside the directory walk, before anything is deleted
     inOrder [.osStat, .newFlagReader, .openFlagReader, .readFlag] xs = true ∧
     allBefore .readFlag .removeAllUnflaggedCompaction xs = true := by decide +kernel
 
 /-- tables are visited in name order: sorted, every element from index 0 -/
 theorem tables_loaded_in_name_order :
-    inSortedFullLoop .loadTable "tablePaths" (itemsOf "DB.reconstructSSTables") = true ∧
-    inSortedFullLoop .addReader "tablePaths" (itemsOf "DB.reconstructSSTables") = true := by decide +kernel
+    inSortedFullLoop .loadTable "‹[]string›" (itemsOf "DB.reconstructSSTables") = true ∧
+    inSortedFullLoop .addReader "‹[]string›" (itemsOf "DB.reconstructSSTables") = true := by decide +kernel
 
 /-- 2cc0c75: a directory whose metadata file exists and is empty is discarded BEFORE the reader gets to load it; the
-check after a failed load (`isUnfinishedTable`) is the older path for tables whose files are missing -/
+check after a failed load (`isUnfinishedTable`) is the older path for tables whose files are missing.  In the normal
+form the loop body is: the check; then `if hasEmptyMetadata(p) { remove } else { load; if err { isUnfinished?; … remove }
+else { addReader } }` — however the source spells the `continue`s and `return`s.  `pathConds`: everything known when the
+action is reached, i.e. the conditions around it and (as `not:`) the guards passed before it. -/
 theorem empty_metadata_checked_before_load :
     let xs := itemsOf "DB.reconstructSSTables"
+    let b := loopBody "‹[]string›" xs
     firstBefore .hasEmptyMetadataCheck .loadTable xs = true ∧
     -- for EVERY table: the check is the first thing the loop body does
-    firstIdx .hasEmptyMetadataCheck (loopBody "tablePaths" xs) = some 0 ∧
-    unconditional .loadTable (loopBody "tablePaths" xs) = true ∧
-    condsAround .removeUnfinishedTable [] xs = [["hasEmptyMetadata(p)", "len(tablePaths) > 0"], ["isUnfinishedTable(p)", "err != nil", "len(tablePaths) > 0"]] ∧
+    firstIdx .hasEmptyMetadataCheck b = some 0 ∧
+    -- the table is loaded exactly when its metadata is not empty, once, not in an inner loop
+    condsAround .loadTable [] b = [["else: simpledb.hasEmptyMetadata(elem(‹[]string›))"]] ∧ loopsAround .loadTable [] b = [[]] ∧
+    -- removed: when the metadata is empty; or when it is not, the load failed, and the table is unfinished (the guard
+    -- `!isUnfinishedTable → return err` was passed)
+    pathConds .removeUnfinishedTable b =
+      [["simpledb.hasEmptyMetadata(elem(‹[]string›))"],
+       ["not: !simpledb.isUnfinishedTable(elem(‹[]string›))", "errNonNil", "else: simpledb.hasEmptyMetadata(elem(‹[]string›))"]] ∧
+    -- added to the readers: metadata not empty and the load succeeded
+    pathConds .addReader b = [["else: errNonNil", "else: simpledb.hasEmptyMetadata(elem(‹[]string›))"]] ∧
     allBefore .loadTable .isUnfinishedTableCheck xs = true ∧ noOther xs = true := by decide +kernel
 
 /-- d2bdde6: an unfinished table is removed index.rio FIRST, then the directory; recovery never calls `RemoveAll` on a
@@ -85,8 +103,8 @@ theorem unfinished_table_index_removed_first :
 names sorted, every file from index 0 —, then the directory is removed and re-created, then the fresh log starts -/
 theorem wal_files_removed_oldest_first :
     let xs := itemsOf "DB.replayAndSetupWriteAheadLog"
-    inSortedFullLoop .removeWalFileInRecovery "walFileNames" xs = true ∧ count .removeWalFileInRecovery xs = 1 ∧
-    inOrder [.replayWal, .executeFlushInRecovery, .readDir, .sortStrings "walFileNames", .removeWalFileInRecovery,
+    inSortedFullLoop .removeWalFileInRecovery "‹[]string›" xs = true ∧ count .removeWalFileInRecovery xs = 1 ∧
+    inOrder [.replayWal, .executeFlushInRecovery, .readDir, .sortStrings "‹[]string›", .removeWalFileInRecovery,
              .removeAllWalDir, .mkdirWalDir, .newWal] (xs.drop 1) = true ∧
     firstIdx .mkdirWalDir xs = some 0 ∧ unconditional .removeAllWalDir xs = true ∧
     noOtherBetween .replayWal .newWal xs = true := by decide +kernel
@@ -96,7 +114,8 @@ and it runs on the swapped-out store -/
 theorem recovery_flush_before_wal_removal :
     let xs := itemsOf "DB.replayAndSetupWriteAheadLog"
     inOrder [.swapMemstore, .executeFlushInRecovery, .removeWalFileInRecovery] xs = true ∧
-    condsAround .executeFlushInRecovery [] xs = [["numRecords != 0"]] := by decide +kernel
+    -- under one condition: the record counter (an integer local) is not zero
+    condsAround .executeFlushInRecovery [] xs = [["‹int› != 0"]] := by decide +kernel
 
 /-- the fresh WAL: the file is created, then its header written -/
 theorem fresh_wal_created_then_header :
